@@ -6,7 +6,9 @@
 set -eu
 WT=$(realpath "$1"); DEST=$2
 mkdir -p "$DEST"
-rsync -a --delete --exclude '.git' --exclude 'target*' --exclude 'run' --exclude 'replays' --exclude 'seeded' "$(dirname "$0")/../" "$DEST/"
+# the committed state (HEAD), so that edits in progress in /verif never end up in a scratch copy
+git -C "$(dirname "$0")/.." archive HEAD -- . ':(exclude)seeded' ':(exclude)evidence' | tar -x -C "$DEST"
+mkdir -p "$DEST/evidence" "$DEST/seeded"
 grep -rlE '/repo' "$DEST/check" "$DEST/harness" "$DEST/tools" --include='*' 2>/dev/null | grep -v '/target' | while read -r f; do
   sed -i "s#/repo/#$WT/#g; s#\"/repo\"#\"$WT\"#g" "$f"
 done
